@@ -5,6 +5,6 @@ f=/repo/$2
 cp $f /tmp/mut.bak
 sed -i "$3" $f
 if cmp -s $f /tmp/mut.bak; then echo "MUTATION DID NOT APPLY: $3"; exit 3; fi
-timeout ${MUT_TIMEOUT:-900} ./check $1 ${MUT_TIER:-quick} 2>&1 | grep -E "VIOLATION|violated|INCONCLUSIVE|MISMATCH|BROKEN|^C[0-9]+ " | cut -c1-220 | head -12
+VERIF_TRIAL_EVIDENCE=/tmp/trial-evidence timeout ${MUT_TIMEOUT:-900} ./check $1 ${MUT_TIER:-quick} 2>&1 | grep -E "VIOLATION|violated|INCONCLUSIVE|MISMATCH|BROKEN|^C[0-9]+ " | cut -c1-220 | head -12
 cp /tmp/mut.bak $f
 git -C /repo status --short | head -3
